@@ -412,7 +412,12 @@ def generate(rng, tier, index):
             fk = rng.choice(usable)
             iid = rng.choice(by_fn[fk.split(".")[1]])
             if allow_preempt and rng.chance(0.4):
-                ops.append(["pcall", fk, iid, rng.below(1 << 16), _pick_assign(rng, allow_invalid_assign), rd])
+                if rng.chance(0.25):
+                    fk2 = rng.choice(usable)
+                    ops.append(["pcall", fk, iid, rng.below(1 << 16),
+                                ["call", fk2, rng.choice(by_fn[fk2.split(".")[1]])], rd])
+                else:
+                    ops.append(["pcall", fk, iid, rng.below(1 << 16), _pick_assign(rng, allow_invalid_assign), rd])
             else:
                 ops.append(["call", fk, iid, rd])
     return {"property": PROPERTY, "config": {"fault_free": not (allow_invalid_assign or allow_preempt)},
@@ -657,9 +662,35 @@ def execute(trace):
                         before = on
                         res = {}
 
-                        def action():
-                            res["raised"] = do_assign(tag)
+                        second_call = isinstance(tag, list)
+                        if second_call:
+                            # the second party makes a guarded call of its own in the middle of ours: it must see the
+                            # switch exactly as the model has it (nobody is assigning)
+                            fk2, iid2 = tag[1], tag[2]
+                            if iid2 >= len(inputs) or inputs[iid2] is None or \
+                                    FN_INPUT[fk2.split(".")[1]] != inputs[iid2]["cls"]:
+                                continue
+                            inp2 = inputs[iid2]
+
+                            def action():
+                                res["second"] = call(fk2, inp2)
+                        else:
+                            def action():
+                                res["raised"] = do_assign(tag)
                         outcome, value, nline2, fired = call(fk, inp, inject=(at, action))
+                        if second_call:
+                            count("fault.preempting_guarded_call")
+                            count("preempt_point.%s@%d" % (fk, at))
+                            if not fired:
+                                action()
+                            o2, v2 = res["second"][0], res["second"][1]
+                            events.append([opi, "pcall2", fk, iid, at, fk2, iid2, outcome, o2,
+                                           core.digest(canon_value(value))[:16]])
+                            judge(fk2, iid2, inp2, o2, v2, {on}, fk2 + "-during-" + fk)
+                            judge(fk, iid, inp, outcome, value, {on}, fk)
+                            if len(op) < 6 or op[5]:
+                                check_switch("after-preempted-" + fk)
+                            continue
                         count("tt.%s|pcall|%s|%s|%s" % (int(before), fk, cls_tag,
                                                          "valid" if tag in VALID_ASSIGN else "invalid"))
                         count("fault.preempting_assignment")
@@ -736,6 +767,7 @@ def shrink_candidates(trace):
             t["ops"][i][1] = "int0"
             yield t
     used = set(op[2] for op in ops if op[0] in ("call", "pcall"))
+    used |= set(op[4][2] for op in ops if op[0] == "pcall" and isinstance(op[4], list))
     for i, inp in enumerate(trace["inputs"]):
         if inp is None:
             continue
